@@ -557,7 +557,7 @@ func ruleHandshakeTable(c *Ctx) {
 				if !isAt || at.Kind != "cmp" || at.Op != token.NEQ {
 					return false
 				}
-				call, isC := ast.Unparen(at.X).(*ast.CallExpr)
+				call, isC := ast.Unparen(p.Deref(f, at.X)).(*ast.CallExpr)
 				if !isC || p.CalleeName(f, call) != "os.Getenv" {
 					return false
 				}
@@ -582,7 +582,7 @@ func ruleHandshakeTable(c *Ctx) {
 			if !isAt || at.Kind != "cmp" || at.Op != token.NEQ {
 				return false
 			}
-			call, isC := ast.Unparen(at.X).(*ast.CallExpr)
+			call, isC := ast.Unparen(p.Deref(f, at.X)).(*ast.CallExpr)
 			if !isC || p.CalleeName(f, call) != "os.Getenv" {
 				return false
 			}
